@@ -266,6 +266,11 @@ func (s *Stats) Observe(c *Case, st *Step, r *Result) {
 			nontrivial = true
 			key.WriteString("slow")
 		}
+		if j.DelayedWrites > 0 {
+			s.FaultFired["F15:slow-destination(write delayed in simulated time)"]++
+			nontrivial = true
+			key.WriteString("sloww")
+		}
 		if j.TimersFired > 0 {
 			s.Probes["time:timer-fired"] += j.TimersFired
 		}
